@@ -263,6 +263,11 @@ def instances(tier):
     for rows in ([[3, 2, -5], [-3, 6, -2], [-4, -3, -1], [3, -6, -5], [1, -6, 3], [3, 3, 6]],      # 4 exchanges, 3 outside rows
                  [[6, -1], [5, 1], [-5, 5], [-3, 5], [-3, -4]]):                                      # 3 exchanges, 3 outside rows
         out.append({'func': 'h_maxvol_chain', 'params': {'rows': rows, 'k': 8}})
+    # exact ties: the largest |B| attained twice in anti-diagonal position; tied LU pivot columns
+    for rows in ([[2, 0, -1], [-1, 1, -1], [-1, 1, -2], [0, -1, 1], [2, 1, -2], [2, 1, -2]],
+                 [[-1, -1, 1], [2, -2, -2], [1, -1, 0], [-2, 2, 0], [2, 1, 1]],
+                 [[1, 1, 1], [1, -1, 1], [-1, 1, 1], [1, 1, -1], [-1, -1, -1]]):
+        out.append({'func': 'h_maxvol_chain', 'params': {'rows': rows, 'k': 8}})
     rect = [(3, 1, 0, 1, 1), (3, 1, 1, 2, 1), (3, 2, 0, 1, 1), (4, 2, 0, 1, 1), (3, 1, 0, 0, 1), (3, 2, 0, 0, 1),
             (3, 2, 0, None, 1), (3, 1, 1, None, 1)] if tier == 'quick' else \
         [(3, 1, 0, 1, 1), (3, 1, 1, 2, 1), (3, 1, 0, 2, 2), (3, 2, 0, 1, 1), (3, 2, 1, 1, 1), (4, 2, 0, 2, 1), (3, 1, 0, 0, 1), (4, 2, 0, 0, 1),
